@@ -623,6 +623,47 @@ pub fn step(state: &State, op: &Op, cfgs: &[Cfg]) -> Result<(StepResult, State),
     }
 }
 
+/// One transition with an environment fault: the lease file is locked by somebody else (another
+/// process holding a write transaction: a backup, an sqlite3 shell) for the whole of the message.
+/// File-backed store in /dev/shm, busy time-out zero so that SQLITE_BUSY is returned at once
+/// instead of after real seconds.  `exclusive` also blocks the reads.
+pub fn step_busy(state: &State, m: &MsgOp, cfgs: &[Cfg], exclusive: bool) -> Result<(StepResult, State), String> {
+    use pool::rusqlite::Connection;
+    clock::set_secs(NOW0 as u64);
+    let path = format!("/dev/shm/erbium-verif-busy-{}-{}.sqlite", std::process::id(), unsafe { libc::gettid() });
+    let cleanup = |path: &str| {
+        for suffix in ["", "-journal", "-wal", "-shm"] {
+            let _ = std::fs::remove_file(format!("{path}{suffix}"));
+        }
+    };
+    cleanup(&path);
+    let r = (|| -> Result<(StepResult, State), String> {
+        {
+            let conn = Connection::open(&path).map_err(|e| e.to_string())?;
+            conn.execute_batch(real_schema()).map_err(|e| e.to_string())?;
+            insert_rows(&conn, state, NOW0, true)?;
+        }
+        let conn = Connection::open(&path).map_err(|e| e.to_string())?;
+        conn.busy_timeout(std::time::Duration::ZERO).map_err(|e| e.to_string())?;
+        let mut p = pool::Pool::verif_with_conn(conn).map_err(|e| e.to_string())?;
+        let blocker = Connection::open(&path).map_err(|e| e.to_string())?;
+        blocker.execute_batch(if exclusive { "BEGIN EXCLUSIVE" } else { "BEGIN IMMEDIATE" }).map_err(|e| format!("blocker: {e}"))?;
+        let res = run_msg(&mut p, m, cfgs);
+        blocker.execute_batch("ROLLBACK").map_err(|e| format!("blocker: {e}"))?;
+        drop(blocker);
+        let post = read_state(&mut p, NOW0)?;
+        Ok((res, post))
+    })();
+    cleanup(&path);
+    r
+}
+
+/// Oracles that hold under a store fault: everything that constrains a reply that WAS sent and
+/// the store it left behind.  Refusing service while the store is unusable is not judged.
+pub fn judge_under_fault(pre: &State, m: &MsgOp, res: &StepResult, post: &State, cfgs: &[Cfg]) -> Vec<Judged> {
+    judge(pre, m, res, post, cfgs).into_iter().filter(|jd| jd.oracle != "holder-refused" && jd.oracle != "refused-with-free-address").collect()
+}
+
 // ---------------------------------------------------------------------------
 // Oracles (pre-state, op, result, post-state) -> violations, tagged by property
 // ---------------------------------------------------------------------------
@@ -795,6 +836,9 @@ pub fn judge(pre: &State, m: &MsgOp, res: &StepResult, post: &State, cfgs: &[Cfg
                     let l = u32::from_be_bytes([v[0], v[1], v[2], v[3]]) as i64;
                     if !(MIN_LEASE..=MAX_LEASE).contains(&l) {
                         out.push(j("C10", "lease-bounds", format!("advertised lease {l}s outside [{MIN_LEASE},{MAX_LEASE}]")));
+                    }
+                    if !post.iter().any(|pr| pr.ip == x && pr.client == me) {
+                        out.push(j("C10", "record-missing", format!("{} of {x} for {l}s, but the server has no record of that lease", if is_disc { "OFFER" } else { "ACK" })));
                     }
                     if let Some(pr) = find(post, x) {
                         if pr.start != 0 {
@@ -1044,6 +1088,9 @@ pub fn deep_roots() -> Vec<State> {
         // two clients outside the alphabet hold addresses that lie outside every pool of the
         // alphabet but, as text, inside the range of K8's pool
         vec![r("192.0.2.20", &vec![0xee; 6], -100, 400), r("192.0.2.21", &vec![0xef; 6], -100, 400)],
+        // very old rows: leases that ran out five weeks and fourteen months ago (inside a pool of the
+        // alphabet, and outside every pool); nothing but a new lease on the same address may touch them
+        vec![r("192.0.2.10", &b, -3_100_000, 86_400), r("192.0.2.21", &vec![0xef; 6], -37_000_000, 3_600), r("192.0.2.11", &a, -34_000_000, 300)],
     ]
 }
 
@@ -1436,6 +1483,22 @@ pub fn replay_case(case: &Value, cfgs: &[Cfg]) -> Result<Vec<Found>, String> {
         let (_, found) = run_longlived_born(&st, &refs, cfgs, true, true, case["born"].as_str() == Some("v0"))?;
         clock::unset();
         return Ok(found);
+    }
+    if let Some(kind) = case["store_locked"].as_str() {
+        let op = op_from_json(ops.first().ok_or("case.ops empty")?, cfgs)?;
+        if let Op::Msg(m) = &op {
+            let (res, post) = step_busy(&st, m, cfgs, kind == "exclusive")?;
+            eprintln!("  step {} with the lease file locked ({kind})\n    -> {:?}\n    rows {}", op_json(&op, cfgs), res, state_json(&post));
+            for jd in judge_under_fault(&st, m, &res, &post, cfgs) {
+                let mut v = Violation::new(jd.oracle, jd.what, case.clone());
+                for (k, val) in jd.sig {
+                    v = v.sig(k, val);
+                }
+                out.push(Found { property: jd.property, v: v.sig("fault", "store-locked") });
+            }
+        }
+        clock::unset();
+        return Ok(out);
     }
     let mut done: Vec<Op> = vec![];
     let mut told = st.clone();
